@@ -506,7 +506,14 @@ def run_lf(case):
                         x[i] = min(max(x0[i] + stp[2], lo[i]), hi[i])
                         got = calc.change([(i, float(x[i]))])
                     stack.append(x.copy())
-                    fresh = lf.make_calculator()(list(x))     # a new calculator: one evaluation, no history
+                    # a new calculator, one evaluation, no history — given bit-identical parameter values: only the
+                    # coordinates whose cell value differs from the incremental calculator's are set (setting a coordinate
+                    # goes through exp(log(v)), which can differ from an untouched v by one ulp; at kappa = 1e6 the
+                    # eigen-decomposition amplifies that ulp to 1e-6 in lnL)
+                    fc = lf.make_calculator()
+                    cur = calc.cell_values[calc._switch]
+                    ch = [(i, float(x[i])) for i in range(n) if fc.cell_values[0][i] != cur[i]]
+                    fresh = fc.change(ch) if ch else fc.testfunction()
                     tf = calc.testfunction()
                     nsteps += 1
                     for a, b, what in ((got, fresh, "call"), (tf, fresh, "testfunction")):
